@@ -1,6 +1,7 @@
 package rscp
 
 import (
+	"bytes"
 	"encoding/json"
 	"fmt"
 	"reflect"
@@ -28,14 +29,17 @@ func (m *Message) UnmarshalJSONValue(jm json.RawMessage) error {
 		} else {
 			tmp = reflect.ValueOf(m.DataType.newEmpty(0)).Elem().Interface()
 		}
-		if err := json.Unmarshal(jm, &tmp); err != nil {
+		// keep numbers as written (json does by default unmarshal to float64 and looses precision)
+		dec := json.NewDecoder(bytes.NewReader(jm))
+		dec.UseNumber()
+		if err := dec.Decode(&tmp); err != nil {
 			return fmt.Errorf("could not convert value '%s' for data type %s: %s", jm, m.DataType, err)
 		}
-		// convert number values to expected data type (json does by default unmarshal to float64)
-		if v, isFloat := tmp.(float64); isFloat {
+		// convert number values to expected data type
+		if v, isNumber := tmp.(json.Number); isNumber {
 			var err error
-			if tmp, err = m.DataType.new(v); err != nil {
-				return fmt.Errorf("could not convert number value '%f' for data type %s", v, m.DataType)
+			if tmp, err = m.DataType.newNumber(v); err != nil {
+				return fmt.Errorf("could not convert number value '%s' for data type %s", v, m.DataType)
 			}
 		}
 		// convert number array to byte array (json does by default unmarshal to []float64)
@@ -48,12 +52,16 @@ func (m *Message) UnmarshalJSONValue(jm json.RawMessage) error {
 			l := len(arr)
 			tmp = make([]byte, l)
 			for i := 0; i < l; i++ {
-				var v float64
-				var isFloat bool
-				if v, isFloat = arr[i].(float64); !isFloat {
+				var v json.Number
+				var isNumber bool
+				if v, isNumber = arr[i].(json.Number); !isNumber {
 					return fmt.Errorf("could not convert byte array value '%v' for data type %s", tmp, m.DataType)
 				}
-				tmp.([]uint8)[i] = uint8(v)
+				b, err := UChar8.newNumber(v)
+				if err != nil {
+					return fmt.Errorf("could not convert byte array value '%v' for data type %s", tmp, m.DataType)
+				}
+				tmp.([]uint8)[i] = b.(uint8)
 			}
 		}
 		// TODO: we need to cleanup generic data type handling somewhen to prevent such hacks
